@@ -117,6 +117,17 @@ class TlcResult:
 
 def run_tlc(module, cfg=None, env=None, workers=1, timeout=3600, simulate=None, depth=None, seed=None,
             xss="1g", xmx="8g", coverage=False, tag=None, deque=True, extra=None):
+    """TLC occasionally dies with a StackOverflowError when several workers race on the first evaluation of
+    recursive definitions (observed with init-state-only models); such a run is repeated once with one worker."""
+    try:
+        return _run_tlc(module, cfg, env, workers, timeout, simulate, depth, seed, xss, xmx, coverage, tag, deque, extra)
+    except ToolError as e:
+        if workers > 1 and "StackOverflowError" in str(e):
+            return _run_tlc(module, cfg, env, 1, timeout, simulate, depth, seed, xss, xmx, coverage, tag, deque, extra)
+        raise
+
+
+def _run_tlc(module, cfg, env, workers, timeout, simulate, depth, seed, xss, xmx, coverage, tag, deque, extra):
     """Run TLC on spec/<module>.tla; raises ToolError on tool-level failures."""
     os.makedirs(WORK, exist_ok=True)
     tag = tag or module
